@@ -33,8 +33,27 @@ CACHE = f("p/kademlia", "(Entry).IsExpired", "(*bucket).len", "(*bucket).get", "
           "(*Cache).bucketIndex", "(*Cache).Count", "(*Cache).IsFull", "(*Cache).Get", "(*Cache).Delete", "(*Cache).evict",
           "(*Cache).Expire", "(*Cache).Update")
 
+SESSION = f("p/p2pke", "newMessage", "ParseMessage", "(Message).GetNonce", "(Message).HeaderBytes", "(Message).Body",
+            "(*Session).canSend", "(*Session).canReceive", "(*Session).IsReady", "(*Session).checkExpired", "(*Session).writeHandshake",
+            "(*Session).Handshake", "(*Session).Send", "(*Session).Deliver", "(*Session).readHandshake", "NewSession", "writeInitHello")
+READERS = f("p/p2pke", "verify", "verifyAuthClaim", "readInitHello", "readRespHello", "readInitDone", "readRespDone")
+CHANNEL = f("p/p2pke", "(*Channel).setCurrent", "(*Channel).setNext", "(*Channel).checkKey", "(*Channel).newInit", "(*Channel).newResp",
+            "(*Channel).proposeNewSession", "(*Channel).onReadySession", "(*Channel).expireSessions", "(*Channel).Deliver$1",
+            "(*Channel).getOrInit", "(*Channel).onRekey$1", "(*Channel).onHandshake$1", "(*Channel).Send$1", "(*Timer).Reset")
+CRYPTO = ["flynn/noise handshake and cipher states by assumed contracts: Encrypt appends len(plaintext)+16 bytes, Decrypt returns the plaintext or an error, neither touches the caller's state; WriteMessage/ReadMessage opaque",
+          "signature verification (x509.Registry / Verifier) is an uninterpreted pure call: a true result is taken to mean the peer signed (cryptographic soundness assumed)",
+          "wireguard replay.Filter.ValidateCounter accepts a counter at most once and only below the limit (assumed)",
+          "frames of Session.Send/Deliver, NewSession, writeInitHello, Channel.newInit/newResp are assumed (a Session method writes only its own Session and the out buffer); listed per run under 'assumed frame'",
+          "sync.Mutex Lock/Unlock are no-ops: the obligations are those of each critical section run sequentially; interleavings are not decided (see C14)",
+          "zap logging calls have no effect on the verified state"]
+
 PROPS = [
     dict(id="C01", functions=VEC + FRAG_WIRE + FRAG_AGG + FRAG_SEND + HDR + COLL + MB_SEND, assumptions=COMMON + BINARY),
+    dict(id="C02", functions=SESSION + READERS + f("p/p2pke", "(*Channel).Deliver$1", "(*Channel).Send$1"), assumptions=COMMON + CRYPTO),
+    dict(id="C03", functions=SESSION + READERS, assumptions=COMMON + CRYPTO),
+    dict(id="C05", functions=CHANNEL + f("p/p2pke", "(*Session).IsReady", "(*Session).Deliver", "NewSession"), assumptions=COMMON + CRYPTO),
+    dict(id="C06", functions=SESSION, assumptions=COMMON + CRYPTO),
+    dict(id="C07", functions=CHANNEL, assumptions=COMMON + CRYPTO + ["time.Time modelled as an integer instant"]),
     dict(id="C08", functions=MUX + FRAG_WIRE + FRAG_AGG + HDR + BITMAP + COLL, assumptions=COMMON + BINARY),
     dict(id="C09", functions=VEC + FRAG_SEND + f("s/fragswarm", "newMessage", "appendUvarint") + MB_SEND + HDR, assumptions=COMMON + BINARY),
     dict(id="C10", functions=FRAG_WIRE + FRAG_AGG + BITMAP + COLL, assumptions=COMMON + BINARY),
